@@ -517,7 +517,7 @@ where
             cnt.decrypts += 1;
             let name: ExternalFileName = s.name.parse().expect("name");
             let t0 = Instant::now();
-            let dl = acct.download_file(&vid(&m.folders[s.folder as usize]), &sid(&s.id), &name).await;
+            let dl = robust_download(acct, &vid(&m.folders[s.folder as usize]), &sid(&s.id), &name, cnt).await;
             *cnt.t_ms.entry("decrypt".into()).or_default() += t0.elapsed().as_millis() as u64;
             match dl {
                 Ok(b) if b == content_bytes[s.content as usize] => s.verified = true,
@@ -734,16 +734,30 @@ async fn settle(a: &NetworkAccount) -> bool {
     }
 }
 
-async fn check_server(server: &ServerProc, account_id: &AccountId, after: &str, suffix: &str, expected: &BTreeSet<String>, fails: &mut Fails, cnt: &mut Counters) {
+/// A blob that was left behind by an earlier step stays on disc; it is
+/// attributed to the step that left it, not reported again after every
+/// later step.
+fn forget_known_leftovers(disk: &mut Disk, expected: &BTreeSet<String>, known: &mut BTreeSet<String>) {
+    let now: BTreeSet<String> = disk.blobs.difference(expected).cloned().collect();
+    for k in known.iter() {
+        if !expected.contains(k) {
+            disk.blobs.remove(k);
+        }
+    }
+    known.extend(now);
+}
+
+async fn check_server(server: &ServerProc, account_id: &AccountId, after: &str, suffix: &str, expected: &BTreeSet<String>, known: &mut BTreeSet<String>, fails: &mut Fails, cnt: &mut Counters) {
     let Some(sa) = server.account(account_id).await else {
         fails.push(format!("transfer:server_has_no_account:after_{}", after), "the account is not on the server".into(), json!({}));
         return;
     };
     let sa = sa.read().await;
     let paths = sa.paths();
-    let disk = walk_blobs(&paths.into_files_dir());
+    let mut disk = walk_blobs(&paths.into_files_dir());
     cnt.store_checks += 1;
     cnt.blobs_hashed += disk.blobs.len() as u64;
+    forget_known_leftovers(&mut disk, expected, known);
     let log = log_set(&*sa).await;
     check_store("transfer", "server", after, suffix, &disk, log.as_ref().ok(), None, expected, fails);
 }
@@ -776,6 +790,7 @@ async fn run_transfer(sh: &Shared, backend: Backend, path: &[Op], wd: &Path) -> 
         let mut m = tpl.model_e.clone();
         let mut fails = Fails::default();
         let mut done: Vec<Op> = vec![];
+        let (mut known_server, mut known_dev2): (BTreeSet<String>, BTreeSet<String>) = Default::default();
         for op in path {
             let r = apply(&mut dev1, &mut m, op, &cpaths).await;
             out.cnt.transitions += 1;
@@ -791,7 +806,7 @@ async fn run_transfer(sh: &Shared, backend: Backend, path: &[Op], wd: &Path) -> 
             check_device(&dev1, &mut m, &cbytes, "transfer", "device1", op.kind(), sfx, false, &mut fails, &mut out.cnt).await;
             let expected = m.expected();
             if m.known {
-                check_server(&server, &account_id, op.kind(), sfx, &expected, &mut fails, &mut out.cnt).await;
+                check_server(&server, &account_id, op.kind(), sfx, &expected, &mut known_server, &mut fails, &mut out.cnt).await;
             }
             // second device: sync (merges the logs, queues downloads)
             let sr = dev2.sync().await;
@@ -804,9 +819,10 @@ async fn run_transfer(sh: &Shared, backend: Backend, path: &[Op], wd: &Path) -> 
             }
             if m.known {
                 let paths = dev2.paths();
-                let disk = walk_blobs(&paths.into_files_dir());
+                let mut disk = walk_blobs(&paths.into_files_dir());
                 out.cnt.store_checks += 1;
                 out.cnt.blobs_hashed += disk.blobs.len() as u64;
+                forget_known_leftovers(&mut disk, &expected, &mut known_dev2);
                 let log = log_set(&dev2).await;
                 check_store("transfer", "device2", op.kind(), sfx, &disk, log.as_ref().ok(), None, &expected, &mut fails);
             }
@@ -873,7 +889,7 @@ async fn run_transfer_late(sh: &Shared, backend: Backend, path: &[Op], wd: &Path
         check_device(&dev1, &mut m, &cbytes, "transfer", "device1", last, sfx, false, &mut fails, &mut out.cnt).await;
         let expected = m.expected();
         if m.known {
-            check_server(&server, &account_id, last, sfx, &expected, &mut fails, &mut out.cnt).await;
+            check_server(&server, &account_id, last, sfx, &expected, &mut BTreeSet::new(), &mut fails, &mut out.cnt).await;
         }
         let mut dev2 = net_open(&d2, backend, account_id, "device_2").await?;
         if let Some(r) = dev2.add_server(server.origin.clone()).await? {
@@ -922,7 +938,7 @@ async fn decrypt_on(dev2: &NetworkAccount, m: &Model, cbytes: &[Vec<u8>; 2], pat
             continue;
         }
         cnt.decrypts += 1;
-        match dev2.download_file(&vid(&m.folders[s.folder as usize]), &sid(&s.id), &name).await {
+        match robust_download(dev2, &vid(&m.folders[s.folder as usize]), &sid(&s.id), &name, cnt).await {
             Ok(b) if b == cbytes[s.content as usize] => {}
             Ok(_) => fails.push("transfer:device2_decrypt_mismatch".into(), "the second device decrypts a transferred blob to other bytes than the original file".into(), json!({"history": path})),
             Err(e) => fails.push("transfer:device2_decrypt_failed".into(), format!("download_file on the second device: {}", e), json!({"history": path})),
@@ -1432,6 +1448,8 @@ fn main() {
                     cnt.decrypts += c.decrypts;
                     cnt.requests += c.requests;
                     cnt.syncs += c.syncs;
+                    cnt.decrypt_retries += c.decrypt_retries;
+                    cnt.decrypt_fallbacks += c.decrypt_fallbacks;
                     for (k, n) in c.op_errors {
                         *cnt.op_errors.entry(k).or_default() += n;
                     }
@@ -1475,6 +1493,7 @@ fn main() {
     cov.insert("blobs_hashed".into(), json!(cnt.blobs_hashed));
     cov.insert("blobs_decrypted_and_compared".into(), json!(cnt.decrypts));
     cov.insert("operation_errors_observed".into(), json!(cnt.op_errors));
+    cov.insert("decrypt_refused_by_age_speed_bound".into(), json!({"retries": cnt.decrypt_retries, "decrypted_without_the_bound_instead": cnt.decrypt_fallbacks, "note": "age refuses scrypt work factors above a bound calibrated from the current machine speed; on a loaded machine this hits files encrypted moments earlier. Not a verdict of this check (environment dependent), but the same refusal would meet a blob encrypted on a fast device and downloaded on a much slower one"}));
     cov.insert("time_ms_part_a".into(), json!(cnt.t_ms));
     drop(base);
     std::process::exit(run.finish(cov));
